@@ -94,6 +94,21 @@ def make_inputs(d, rng):
     os.makedirs(dd, exist_ok=True)
     files["decorated"] = {"MaxQuant": os.path.join(dd, "evidence.txt"), "Perc": os.path.join(dd, "perc.tab"), "FragPipe": os.path.join(dd, "psm.tsv"),
                           "Sage": os.path.join(dd, "results.sage.tsv"), "DIA-NN": os.path.join(dd, "report.tsv")}
+    # the same PSMs split over TWO files of every type (first half / second half): several evidence files of one type are a supported
+    # input of every method, and the table must be the one of the concatenated file
+    ds = os.path.join(d, "split")
+    os.makedirs(ds, exist_ok=True)
+    files["split"] = {}
+    for kind_, writer, ext, rows_ in (("MaxQuant", filegen.write_maxquant, "txt", mq_psms), ("Perc", filegen.write_percolator, "tab", psms),
+                                      ("FragPipe", filegen.write_fragpipe, "tsv", psms), ("Sage", filegen.write_sage, "sage.tsv", psms),
+                                      ("DIA-NN", filegen.write_diann, "tsv", psms)):
+        h = max(1, len(rows_) // 2)
+        parts = []
+        for j, part in enumerate((rows_[:h], rows_[h:])):
+            pth = os.path.join(ds, f"{kind_.replace('-', '')}_{j}.{ext}")
+            writer(pth, part)
+            parts.append(pth)
+        files["split"][kind_] = parts
     mq_dec = [dict(next(x for x in dec if x["id"] == q["id"]), pep=q["pep"]) for q in mq_psms]
     filegen.write_maxquant(files["decorated"]["MaxQuant"], mq_dec)
     filegen.write_percolator(files["decorated"]["Perc"], dec)
@@ -179,6 +194,15 @@ def cli_sweep(r, n_inputs):
             b = open(outd, "rb").read() if os.path.exists(outd) else None
             if a != b:
                 res.append(("fail", m, f"the table changes when the modifications of the same PSMs are spelled out ({kind} input): "
+                                      f"{len(a.splitlines())} lines versus {None if b is None else len(b.splitlines())} (exit {rc}: {err[-200:]})"))
+        if k == 0 and os.path.exists(out) and all(os.path.getsize(f) > 0 for f in files["split"][kind]):
+            outs_ = os.path.join(d, f"out_split_{m}.txt")
+            rc, err = run_cli([FLAG[kind]] + files["split"][kind] + ["--methods", m, "--protein_groups_out", outs_] +
+                              (["--fasta", files["fasta"]] if rem else []), env)
+            a = open(out, "rb").read()
+            b = open(outs_, "rb").read() if os.path.exists(outs_) else None
+            if a != b:
+                res.append(("fail", m, f"the table of two {kind} files differs from the table of the same PSMs in one file: "
                                       f"{len(a.splitlines())} lines versus {None if b is None else len(b.splitlines())} (exit {rc}: {err[-200:]})"))
         if rem and k == 0:
             out2 = os.path.join(d, f"out_nofasta_{m}.txt")
